@@ -93,7 +93,7 @@ CLAIMS = {
         text="Over all generated interface shapes (embedding, method order, parameters), both event orders and local/upstream first events, a conversion to a different interface is never skipped by the "
              "(interface, implementation) cache and produces one result trigger per result and one parameter trigger per parameter of every method of its method set; the same pair is analysed once.",
         note="Partial: the pair cache only. No symbolic scalars in this kernel (shape enumeration); type-checker API stubbed by contract under symx and real in the native replay. "
-             "Found and fixed (fix: commit): the cache key of an interface was derived from its first method's declaring type, so an interface embedding an already-seen one was skipped. Source level (P09): 1152 interface programs (two implementations, nine conversion shapes incl. `:=`, return, composite literal, append and a decorator, single package and split) through the real pipeline with the real affiliation analyzer; dispatch evaluated over the opaque flag. " + PIPE_NOTE + "",
+             "Found and fixed (fix: commit): the cache key of an interface was derived from its first method's declaring type, so an interface embedding an already-seen one was skipped. Source level (P09): 2176 interface programs (two implementations, 17 conversion shapes, single package and split; eight conversion sites NilAway did not recognise were found and fixed) through the real pipeline with the real affiliation analyzer; dispatch evaluated over the opaque flag. " + PIPE_NOTE + "",
     ),
     "C08": dict(
         text="For every assignment of producer nilabilities (symbolic) to <=N triggers over two return statements the solver shows that FilterTriggersForErrorReturn drops value-result triggers iff the "
